@@ -1,5 +1,7 @@
 import GaleneVerif.Engine.Common
 import GaleneVerif.Engine.Cache
+import GaleneVerif.Engine.PacketMap
+import GaleneVerif.Engine.Codecs
 /-
 Line-protocol driver.  usage: driver <engine> < trace
 Trace lines: `# case <id>` starts a fresh case (engine state reset);
@@ -53,7 +55,9 @@ partial def loop (e : EngineDef) (h : IO.FS.Stream) (st : e.σ) (caseId : String
       loop e h st' caseId true lineNo { c with badops := c.badops + 1 }
 
 def engines : List (String × EngineDef) :=
-  [ ("cache", Galene.Engine.Cache.engine) ]
+  [ ("cache", Galene.Engine.Cache.engine),
+    ("pmap", Galene.Engine.PacketMap.engine),
+    ("codecs", Galene.Engine.Codecs.engine) ]
 
 def main (args : List String) : IO UInt32 := do
   match args with
